@@ -90,10 +90,15 @@ def strip_idiom(fnode) -> List[Tuple[str, ast.AST]]:
     for n in ast.walk(fnode):
         if not isinstance(n, ast.Return) or n.value is None:
             continue
-        v = n.value
-        if isinstance(v, ast.Name) and v.id in params:
-            continue  # identity: no prefix present
-        out.append((_classify_strip(v), n))
+        def arms(e):
+            if isinstance(e, ast.IfExp):      # `return cut if <has prefix> else text`: the arms are the returns
+                return arms(e.body) + arms(e.orelse)
+            return [e]
+        for v in arms(n.value):
+            if isinstance(v, ast.Name) and v.id in params:
+                continue  # identity: no prefix present
+            r = n if v is n.value else ast.copy_location(ast.Return(value=v), n)
+            out.append((_classify_strip(v), r))
     return out
 
 
@@ -233,11 +238,18 @@ def resolver_tokens(fnode) -> List[str]:
         if isinstance(st, ast.Assign) and isinstance(st.value, ast.Call) and isinstance(st.value.func, ast.Name) and \
                 st.value.func.id == 'convert_type':
             toks.append('convert')
+        # the localisation tag: `if '#' in mod: ...`, or the cut written as an assignment (`mod = mod.split('#')[0] if
+        # '#' in mod else mod`, `mod = mod.partition('#')[0]`)
+        if isinstance(st, ast.Assign) and any(
+                isinstance(x, ast.Call) and isinstance(x.func, ast.Attribute) and x.func.attr in ('split', 'partition')
+                and x.args and isinstance(x.args[0], ast.Constant) and x.args[0].value == '#' for x in ast.walk(st.value)):
+            toks.append('hash')
+            continue
         if not isinstance(st, ast.If):
             continue
         t = st.test
         txt = norm_stmt(t)
-        if "'#' in" in txt:
+        if "'#' in" in txt or ".startswith('#')" in txt:
             toks.append('hash')
             continue
         found = False
